@@ -221,24 +221,29 @@ package genetics
 //@     invariant real(expectedOffspring) + skim == old(skim) + sumFieldR(s.Organisms[0:#idx+1], heapOf(Organism.ExpectedOffspring))
 //@ pred speciesListWF(ss []*Species) = forall i :: 0 <= i && i < len(ss) ==> ss[i] != nil && len(ss[i].Organisms) > 0 && ss[i].Organisms[0] != nil && ss[i].ExpectedOffspring >= 0
 //@ func (*Population).giveBabiesToTheBest
-//@   props C09 C02
+//@   props C09 C02 C10
 //@   uses sumFI_update memberAt
 //@   requires p != nil && opts != nil && opts.BabiesStolen >= 0
 //@   requires len(sortedSpecies) > 0 && speciesListWF(sortedSpecies) && distinctRefs(sortedSpecies)
+//@   requires [freshGeneration] forall i :: 0 <= i && i < len(sortedSpecies) ==> sortedSpecies[i].Organisms[0].superChampOffspring == 0 && sortedSpecies[i].ExpectedOffspring >= 0
+//@   requires [ownChampions] forall i, j :: 0 <= i && i < j && j < len(sortedSpecies) ==> sortedSpecies[i].Organisms[0] != sortedSpecies[j].Organisms[0]
 //@   modifies Species.ExpectedOffspring, Organism.superChampOffspring
+//@   ensures [champs] forall i :: 0 <= i && i < len(sortedSpecies) ==> 0 <= sortedSpecies[i].Organisms[0].superChampOffspring && sortedSpecies[i].Organisms[0].superChampOffspring <= sortedSpecies[i].ExpectedOffspring
 //@   ensures [conserve] sumField(sortedSpecies, heapOf(Species.ExpectedOffspring)) == old(sumField(sortedSpecies, heapOf(Species.ExpectedOffspring)))
 //@   ensures [nonneg] forall i :: 0 <= i && i < len(sortedSpecies) ==> sortedSpecies[i].ExpectedOffspring >= 0
 //@   loop 1:
 //@     invariant -1 <= i && i < len(sortedSpecies) && 0 <= stolenBabies && stolenBabies <= opts.BabiesStolen
 //@     invariant sumField(sortedSpecies, heapOf(Species.ExpectedOffspring)) + stolenBabies == old(sumField(sortedSpecies, heapOf(Species.ExpectedOffspring)))
 //@     invariant forall k :: 0 <= k && k < len(sortedSpecies) ==> sortedSpecies[k].ExpectedOffspring >= 0
+//@     invariant [champs] forall k :: 0 <= k && k < len(sortedSpecies) ==> sortedSpecies[k].Organisms[0].superChampOffspring == 0
 //@   loop 2:
 //@     invariant -1 <= #idx && #idx < len(sortedSpecies) && 0 <= stolenBabies && 0 <= blockIndex
 //@     invariant len(stolenBlocks) == 3 && stolenBlocks[0] >= 0 && stolenBlocks[1] >= 0 && stolenBlocks[2] >= 0
 //@     invariant sumField(sortedSpecies, heapOf(Species.ExpectedOffspring)) + stolenBabies == old(sumField(sortedSpecies, heapOf(Species.ExpectedOffspring)))
 //@     invariant forall k :: 0 <= k && k < len(sortedSpecies) ==> sortedSpecies[k].ExpectedOffspring >= 0
+//@     invariant [champs] forall k :: 0 <= k && k < len(sortedSpecies) ==> 0 <= sortedSpecies[k].Organisms[0].superChampOffspring && sortedSpecies[k].Organisms[0].superChampOffspring <= sortedSpecies[k].ExpectedOffspring
 //@ func (*Population).deltaCoding
-//@   props C09 C02
+//@   props C09 C02 C10
 //@   requires p != nil && opts != nil && opts.PopSize >= 0
 //@   requires len(sortedSpecies) > 0 && speciesListWF(sortedSpecies) && (len(sortedSpecies) > 1 ==> sortedSpecies[0] != sortedSpecies[1])
 //@   requires forall i :: 2 <= i && i < len(sortedSpecies) ==> sortedSpecies[i] != sortedSpecies[0] && sortedSpecies[i] != sortedSpecies[1]
@@ -247,9 +252,11 @@ package genetics
 //@   ensures [single] len(sortedSpecies) == 1 ==> sortedSpecies[0].ExpectedOffspring == opts.PopSize
 //@   ensures [topTwo] len(sortedSpecies) > 1 ==> sortedSpecies[0].ExpectedOffspring + sortedSpecies[1].ExpectedOffspring == opts.PopSize && sortedSpecies[0].ExpectedOffspring == opts.PopSize / 2
 //@   ensures [rest] forall i :: 2 <= i && i < len(sortedSpecies) ==> sortedSpecies[i].ExpectedOffspring == 0
-//@   ensures [champs] sortedSpecies[0].Organisms[0].superChampOffspring <= sortedSpecies[0].ExpectedOffspring
+//@   ensures [champs] 0 <= sortedSpecies[0].Organisms[0].superChampOffspring && sortedSpecies[0].Organisms[0].superChampOffspring <= sortedSpecies[0].ExpectedOffspring
+//@   ensures [champs2] len(sortedSpecies) > 1 ==> 0 <= sortedSpecies[1].Organisms[0].superChampOffspring && sortedSpecies[1].Organisms[0].superChampOffspring <= sortedSpecies[1].ExpectedOffspring
 //@   loop 1:
 //@     invariant 2 <= i && i <= len(sortedSpecies)
+//@     invariant sortedSpecies[1].Organisms[0].superChampOffspring == sortedSpecies[1].ExpectedOffspring && sortedSpecies[0].Organisms[0].superChampOffspring == opts.PopSize / 2
 //@     invariant sortedSpecies[0].ExpectedOffspring == opts.PopSize / 2 && sortedSpecies[1].ExpectedOffspring == opts.PopSize - opts.PopSize / 2
 //@     invariant forall k :: 2 <= k && k < i ==> sortedSpecies[k].ExpectedOffspring == 0
 //@     invariant sortedSpecies[0].Organisms[0].superChampOffspring <= sortedSpecies[0].ExpectedOffspring
@@ -562,3 +569,82 @@ package genetics
 //@   loop 5:
 //@     invariant -1 <= #idx && (newOutNode != nil ==> newOutNode.Id == outNode.Id)
 //@     invariant [chosen] chosenGene != nil && chosenGene.Link != nil && chosenGene.Link.InNode != nil && chosenGene.Link.OutNode != nil && ((i1 > 0 && chosenGene == g.Genes[i1-1]) || (i2 > 0 && chosenGene == og.Genes[i2-1]))
+
+// ---- C10 / C02: what one species contributes to the next generation ---------------------------------
+// Ghost witnesses of elitism: gCloneGenome is the genome produced by duplicating the species champion that is NOT handed to any
+// mutator afterwards, gCloneAt its position among the babies.
+//@ ghost gCloneAt Int
+//@ ghost gCloneGenome Int
+// The operators applied to babies enter with the effect derived from their bodies (modification analysis): none of them touches an
+// Organism or a Species, which is all this contract needs of them.
+//@ func (*Genome).mutateLinkWeights
+//@   reason effect derived from the body (modification analysis); no functional claim
+//@ func (*Genome).mutateAddLink
+//@   reason effect derived from the body (modification analysis); no functional claim
+//@ func (*Genome).mutateConnectSensors
+//@   reason effect derived from the body (modification analysis); no functional claim
+//@ func (*Genome).mutateAllNonstructural
+//@   reason effect derived from the body (modification analysis); no functional claim
+// The two other crossovers: only what C02/C10 need of them is claimed here -- a successful call returns a genome allocated by
+// this very call (the alignment law of C04 is proved for mateMultipoint only). The callees' preconditions are assumptions.
+//@ func (*Genome).mateMultipointAvg
+//@   props C02 C10
+//@   mode nosafety
+//@   assume_pre mateTraits, NewNNodeCopy, NewGeneCopy, nodeInsert, mateModules, newGenome
+//@   ensures [freshChild] result1 == nil ==> result0 != nil && fresh(result0)
+//@   loop 1:
+//@     invariant true
+//@   loop 2:
+//@     invariant true
+//@   loop 3:
+//@     invariant true
+//@   loop 4:
+//@     invariant true
+//@   loop 5:
+//@     invariant true
+//@ func (*Genome).mateSinglePoint
+//@   props C02 C10
+//@   mode nosafety
+//@   requires [nonEmptyParents] len(g.Genes) > 0 && len(og.Genes) > 0
+//@   assume_pre mateTraits, NewNNodeCopy, NewGeneCopy, nodeInsert, mateModules, newGenome
+//@   ensures [freshChild] result1 == nil ==> result0 != nil && fresh(result0)
+//@   loop 1:
+//@     invariant true
+//@   loop 2:
+//@     invariant true
+//@   loop 3:
+//@     invariant true
+//@   loop 4:
+//@     invariant true
+//@   loop 5:
+//@     invariant true
+//@ func (*Species).reproduce
+//@   props C10 C02
+//@   mode nosafety
+//@   abstracts select
+//@   assume_pre duplicate, mutateAddNode, mateMultipoint, mateSinglePoint, compatibility, Int31n
+//@   requires s != nil && pop != nil && len(s.Organisms) > 0 && (forall i :: 0 <= i && i < len(s.Organisms) ==> s.Organisms[i] != nil && s.Organisms[i].Genotype != nil)
+//@   requires [quotaCoversSuperChamp] 0 <= s.Organisms[0].superChampOffspring && s.Organisms[0].superChampOffspring <= s.ExpectedOffspring
+//@   requires neat.ErrNEATOptionsNotFound != nil
+//@   set gCloneAt = 0 - 1 @ entry
+//@   set gCloneGenome = 0 @ entry
+//@   set gCloneGenome = (theChamp.superChampOffspring == 1) ? result0 : gCloneGenome @ after 1 duplicate
+//@   set gCloneAt = (theChamp.superChampOffspring == 1) ? len(babies) : gCloneAt @ after 1 duplicate
+//@   set gCloneGenome = result0 @ after 2 duplicate
+//@   set gCloneAt = len(babies) @ after 2 duplicate
+//@   assert [notMutated] arg0 != gCloneGenome @ before * mutate*
+//@   own_writes Organism.*, Mem[*Organism]
+//@   ensures [count] result1 == nil ==> len(result0) == (old(s.ExpectedOffspring) > 0 ? old(s.ExpectedOffspring) : 0)
+//@   ensures [newOrganisms] result1 == nil ==> (forall k :: 0 <= k && k < len(result0) ==> result0[k] != nil && fresh(result0[k]) && result0[k].Genotype != nil && fresh(result0[k].Genotype))
+//@   ensures [championKept] result1 == nil && old(s.ExpectedOffspring) > 5 ==> 0 <= gCloneAt && gCloneAt < len(result0) && result0[gCloneAt].Genotype == gCloneGenome && gCloneGenome != 0
+//@   loop 1:
+//@     invariant [count] 0 <= count && (count <= s.ExpectedOffspring || (s.ExpectedOffspring <= 0 && count == 0)) && len(babies) == count && fresh(babies)
+//@     invariant [same] theChamp == s.Organisms[0] && theChamp == old(s.Organisms[0]) && s.ExpectedOffspring == old(s.ExpectedOffspring) && poolSize == len(s.Organisms) && poolSize > 0 && opts != nil
+//@     invariant [orgs] forall i :: 0 <= i && i < len(s.Organisms) ==> s.Organisms[i] != nil && s.Organisms[i].Genotype != nil && !fresh(s.Organisms[i])
+//@     invariant [babies] forall k :: 0 <= k && k < len(babies) ==> babies[k] != nil && fresh(babies[k]) && babies[k].Genotype != nil && fresh(babies[k].Genotype)
+//@     invariant [superChamp] 0 <= theChamp.superChampOffspring && theChamp.superChampOffspring == (old(s.Organisms[0].superChampOffspring) > count ? old(s.Organisms[0].superChampOffspring) - count : 0)
+//@     invariant [cloneAlloc] gCloneGenome == 0 || allocated(gCloneGenome)
+//@     invariant [clone] gCloneAt >= 0 ==> gCloneAt < len(babies) && babies[gCloneAt].Genotype == gCloneGenome && gCloneGenome != 0 && allocated(gCloneGenome)
+//@     invariant [cloneDone] (champCloneDone ==> gCloneAt >= 0) && (old(s.Organisms[0].superChampOffspring) > 0 && count >= old(s.Organisms[0].superChampOffspring) ==> gCloneAt >= 0) && (old(s.Organisms[0].superChampOffspring) == 0 && s.ExpectedOffspring > 5 && count >= 1 ==> gCloneAt >= 0)
+//@   loop 2:
+//@     invariant 0 <= giveup
